@@ -212,15 +212,113 @@ theorem wfCode_no_start {c : List Instr} (h : wfCode c) (h0 : csum Instr.owed c 
 
 /-! ### the stage-tree predicates as quantifiers -/
 
+theorem cleanL_iff {cfg : Cfg} {cs : List Stage} : cleanL cfg cs = true ↔ ∀ c ∈ cs, c.clean cfg = true := by
+  induction cs with
+  | nil => simp [cleanL]
+  | cons a cs ih => simp [cleanL, ih]
+
+theorem Stage.clean_iff (cfg : Cfg) (s : Stage) :
+    s.clean cfg = true ↔
+      ((s.planPanics = false ∧ s.out.panics = false) ∨ cfg.stageRecover = true) ∧
+      (s.run ≠ .rejected ∨ cfg.rejectNotifies = true) ∧ ∀ c ∈ s.children, c.clean cfg = true := by
+  cases s with
+  | mk r pp o cs => simp [Stage.clean, cleanL_iff, and_assoc]
+
 theorem noPanicL_iff {cs : List Stage} : noPanicL cs = true ↔ ∀ c ∈ cs, c.noPanic = true := by
   induction cs with
   | nil => simp [noPanicL]
   | cons a cs ih => simp [noPanicL, ih]
 
 theorem Stage.noPanic_iff (s : Stage) :
-    s.noPanic = true ↔ s.out ≠ .panic ∧ ∀ c ∈ s.children, c.noPanic = true := by
+    s.noPanic = true ↔ s.planPanics = false ∧ s.out.panics = false ∧ s.run ≠ .rejected ∧
+      ∀ c ∈ s.children, c.noPanic = true := by
   cases s with
-  | mk a o cs => simp [Stage.noPanic, noPanicL_iff]
+  | mk r pp o cs => simp [Stage.noPanic, noPanicL_iff, and_assoc]
+
+mutual
+theorem Stage.clean_of_noPanic (cfg : Cfg) : ∀ s : Stage, s.noPanic = true → s.clean cfg = true
+  | .mk r pp o cs => by
+    intro h
+    simp only [Stage.noPanic, Bool.and_eq_true] at h
+    simp only [Stage.clean, Bool.and_eq_true, Bool.or_eq_true]
+    exact ⟨⟨Or.inl ⟨h.1.1.1, h.1.1.2⟩, Or.inl h.1.2⟩, cleanL_of_noPanicL cfg cs h.2⟩
+theorem cleanL_of_noPanicL (cfg : Cfg) : ∀ cs : List Stage, noPanicL cs = true → cleanL cfg cs = true
+  | [] => fun _ => rfl
+  | c :: cs => by
+    intro h
+    simp only [noPanicL, Bool.and_eq_true] at h
+    simp only [cleanL, Bool.and_eq_true]
+    exact ⟨Stage.clean_of_noPanic cfg c h.1, cleanL_of_noPanicL cfg cs h.2⟩
+end
+
+mutual
+theorem Stage.clean_of_repaired {cfg : Cfg} (h1 : cfg.stageRecover = true) (h2 : cfg.rejectNotifies = true) :
+    ∀ s : Stage, s.clean cfg = true
+  | .mk r pp o cs => by
+    simp only [Stage.clean, Bool.and_eq_true, Bool.or_eq_true]
+    exact ⟨⟨Or.inr h1, Or.inr h2⟩, cleanL_of_repaired h1 h2 cs⟩
+theorem cleanL_of_repaired {cfg : Cfg} (h1 : cfg.stageRecover = true) (h2 : cfg.rejectNotifies = true) :
+    ∀ cs : List Stage, cleanL cfg cs = true
+  | [] => rfl
+  | c :: cs => by
+    simp only [cleanL, Bool.and_eq_true]
+    exact ⟨Stage.clean_of_repaired h1 h2 c, cleanL_of_repaired h1 h2 cs⟩
+end
+
+mutual
+theorem Stage.noReject_of_noPanic : ∀ s : Stage, s.noPanic = true → s.noReject = true
+  | .mk r pp o cs => by
+    intro h
+    simp only [Stage.noPanic, Bool.and_eq_true] at h
+    simp only [Stage.noReject, Bool.and_eq_true]
+    exact ⟨h.1.2, noRejectL_of_noPanicL cs h.2⟩
+theorem noRejectL_of_noPanicL : ∀ cs : List Stage, noPanicL cs = true → noRejectL cs = true
+  | [] => fun _ => rfl
+  | c :: cs => by
+    intro h
+    simp only [noPanicL, Bool.and_eq_true] at h
+    simp only [noRejectL, Bool.and_eq_true]
+    exact ⟨Stage.noReject_of_noPanic c h.1, noRejectL_of_noPanicL cs h.2⟩
+end
+
+mutual
+theorem Stage.clean_of_noReject {cfg : Cfg} (h1 : cfg.stageRecover = true) :
+    ∀ s : Stage, s.noReject = true → s.clean cfg = true
+  | .mk r pp o cs => by
+    intro h
+    simp only [Stage.noReject, Bool.and_eq_true] at h
+    simp only [Stage.clean, Bool.and_eq_true, Bool.or_eq_true]
+    exact ⟨⟨Or.inr h1, Or.inl h.1⟩, cleanL_of_noRejectL h1 cs h.2⟩
+theorem cleanL_of_noRejectL {cfg : Cfg} (h1 : cfg.stageRecover = true) :
+    ∀ cs : List Stage, noRejectL cs = true → cleanL cfg cs = true
+  | [] => fun _ => rfl
+  | c :: cs => by
+    intro h
+    simp only [noRejectL, Bool.and_eq_true] at h
+    simp only [cleanL, Bool.and_eq_true]
+    exact ⟨Stage.clean_of_noReject h1 c h.1, cleanL_of_noRejectL h1 cs h.2⟩
+end
+
+mutual
+theorem Stage.noReject_of_recoverable : ∀ (b : Bool) (s : Stage), s.recoverable b = true → s.noReject = true
+  | b, .mk r pp o cs => by
+    intro h
+    simp only [Stage.recoverable, Bool.and_eq_true] at h
+    simp only [Stage.noReject, Bool.and_eq_true]
+    refine ⟨h.1.1, ?_⟩
+    have h2 := h.2
+    split at h2
+    · simp only [Bool.and_eq_true] at h2
+      exact noRejectL_of_recoverableL b cs h2.2
+    · exact noRejectL_of_recoverableL false cs h2
+theorem noRejectL_of_recoverableL : ∀ (b : Bool) (cs : List Stage), recoverableL b cs = true → noRejectL cs = true
+  | _, [] => fun _ => rfl
+  | b, c :: cs => by
+    intro h
+    simp only [recoverableL, Bool.and_eq_true] at h
+    simp only [noRejectL, Bool.and_eq_true]
+    exact ⟨Stage.noReject_of_recoverable b c h.1, noRejectL_of_recoverableL b cs h.2⟩
+end
 
 theorem recoverableL_iff {b : Bool} {cs : List Stage} :
     recoverableL b cs = true ↔ ∀ c ∈ cs, c.recoverable b = true := by
@@ -228,19 +326,15 @@ theorem recoverableL_iff {b : Bool} {cs : List Stage} :
   | nil => simp [recoverableL]
   | cons a cs ih => simp [recoverableL, ih]
 
-theorem Stage.recoverable_async {b : Bool} {s : Stage} (ha : s.async = true) :
-    s.recoverable b = true ↔ ∀ c ∈ s.children, c.recoverable false = true := by
+/-- what `recoverable` says about a stage started from a goroutine of kind `b` -/
+theorem Stage.recoverable_iff {b : Bool} (s : Stage) :
+    s.recoverable b = true ↔
+      s.run ≠ .rejected ∧ (s.planPanics = true → b = true) ∧
+      (s.run = .inline → (s.out.panics = true → b = true) ∧ ∀ c ∈ s.children, c.recoverable b = true) ∧
+      (s.run ≠ .inline → ∀ c ∈ s.children, c.recoverable false = true) := by
   cases s with
-  | mk a o cs => simp at ha; subst ha; simp [Stage.recoverable, recoverableL_iff]
-
-theorem Stage.recoverable_sync {b : Bool} {s : Stage} (ha : s.async = false) :
-    s.recoverable b = true ↔ (s.out = .panic → b = true) ∧ ∀ c ∈ s.children, c.recoverable b = true := by
-  cases s with
-  | mk a o cs =>
-    simp at ha; subst ha
-    simp [Stage.recoverable, recoverableL_iff]
-    intro _
-    cases o <;> simp
+  | mk r pp o cs =>
+    cases r <;> cases pp <;> cases b <;> simp [Stage.recoverable, recoverableL_iff]
 
 end LinVerif.Pipeline
 
